@@ -591,8 +591,8 @@ CHECKS = {
                  "period every fresh write that reaches a node reaches the final master and the last one does reach it; "
                  "non-trivial = commands were judged and a +switch-master was delivered or a ROLE check refused a node; distinct = distinct event-log hash"),
         "parts": [
-            {"module": "rueidis", "scenario": "sentinel-follow", "quick": 6000, "thorough": 400000},
-            {"module": "rueidis", "scenario": "sentinel-follow", "variant": "calm", "quick": 1500, "thorough": 100000},
+            {"module": "rueidis", "scenario": "sentinel-follow", "quick": 5000, "thorough": 400000},
+            {"module": "rueidis", "scenario": "sentinel-follow", "variant": "calm", "quick": 1000, "thorough": 100000},
         ],
         "expected_probes": ["switch-master-delivered", "role-check-refused-node", "sentinels-named-different-masters", "event-deferred-while-mutex-busy",
                             "primary-traffic-met-demoted-node", "sentinel-lost", "node-lost", "connection-lost", "liveness-judged"],
@@ -611,10 +611,11 @@ CHECKS = {
             "pickReplica draws from the seeded util.FastRand seam",
         ],
     },
-    # ---- C21: sentinel + standalone parts (builder ag-sentinel); the lead adds the cluster part to this entry ----
-    "C21": {
-        "level": "exploration",
-        "rule": ("standalone part (standalone-route): 1-3 standalone clients with 1-3 configured replicas (the model's primary and replicas share one dataset), SendToReplicas "
+}
+
+# ---- C21: sentinel + standalone parts (builder ag-sentinel), added to the entry that holds the cluster part ----
+_C21_SS = {
+    "rule": ("standalone part (standalone-route): 1-3 standalone clients with 1-3 configured replicas (the model's primary and replicas share one dataset), SendToReplicas "
                  "predicates that are pure functions of the command (read-only flag, a marker in the arguments, always, never; every call is logged), with and without "
                  "EnableReplicaAZInfo (= non-empty / empty candidate list), with and without a constant ReadNodeSelector returning 0, an in-range replica index, one past the "
                  "end, far out or a negative number; 2-5 tasks issue Do, DoMulti (uniform and mixed opt-in), DoStream, DoMultiStream, DoCache and Receive with attributable "
@@ -623,19 +624,24 @@ CHECKS = {
                  "received by the primary. sentinel part (sentinel-follow, see C23): a command received on a connection the client opened as replica connection, or on a "
                  "node that had answered ROLE as slave on that connection, belongs to a call for which SendToReplicas is true for every command or the client is ReplicaOnly; "
                  "non-trivial = commands were judged and a replica served one, a batch had partial opt-in, or a selector result was out of range; distinct = distinct event-log hash"),
-        "parts": [
-            {"module": "rueidis", "scenario": "standalone-route", "quick": 6000, "thorough": 400000},
-            {"module": "rueidis", "scenario": "sentinel-follow", "quick": 3000, "thorough": 200000},
-        ],
-        "expected_probes": ["replica-served", "batch-with-partial-opt-in", "selector-negative", "selector-past-the-end", "selector-empty-candidate-list",
-                            "selector-chose-replica", "stream-on-replica", "batch-on-replica"],
-        "components": {"real": REAL, "stubs": STUBS},
-        "assumptions": [
-            "standalone.pick uses the unseedable math/rand/v2 when several replicas are configured without a selector: such plans always carry a selector, and selectors are constant functions",
-            "in the sentinel part a node that was demoted after the client's ROLE check may receive primary-path commands until the client learns of it; that is counted, not judged",
-            "cached reads of the standalone client always go to the primary; that is allowed by the property (replicas only WITH opt-in, not always with opt-in)",
-            "EnableRedirect (which excludes ReplicaAddress) is not exercised",
-        ],
-    },
-    # ---- end of the ag-sentinel block ----
+    "parts": [
+        {"module": "rueidis", "scenario": "standalone-route", "quick": 5000, "thorough": 400000},
+        {"module": "rueidis", "scenario": "sentinel-follow", "quick": 2500, "thorough": 200000},
+    ],
+    "expected_probes": ["replica-served", "batch-with-partial-opt-in", "selector-negative", "selector-past-the-end", "selector-empty-candidate-list",
+                        "selector-chose-replica", "stream-on-replica", "batch-on-replica"],
+    "assumptions": [
+        "standalone part: standalone.pick uses the unseedable math/rand/v2 when several replicas are configured without a selector: such plans always carry a selector, and selectors are constant functions",
+        "sentinel part: a node that was demoted after the client's ROLE check may receive primary-path commands until the client learns of it; that is counted, not judged",
+        "standalone part: cached reads of the standalone client always go to the primary; that is allowed by the property (replicas only WITH opt-in, not always with opt-in)",
+        "standalone part: EnableRedirect (which excludes ReplicaAddress) is not exercised",
+    ],
 }
+if "C21" in CHECKS:
+    CHECKS["C21"]["rule"] = CHECKS["C21"]["rule"] + " || " + _C21_SS["rule"]
+    CHECKS["C21"]["parts"] = CHECKS["C21"]["parts"] + _C21_SS["parts"]
+    CHECKS["C21"]["expected_probes"] = CHECKS["C21"].get("expected_probes", []) + _C21_SS["expected_probes"]
+    CHECKS["C21"]["assumptions"] = CHECKS["C21"].get("assumptions", []) + _C21_SS["assumptions"]
+else:
+    CHECKS["C21"] = dict(_C21_SS, level="exploration", components={"real": REAL, "stubs": STUBS})
+# ---- end of the ag-sentinel block ----
